@@ -469,7 +469,9 @@ fn run_case(line: &str) -> String {
                     Err(e) => err_class(&e),
                 }
             });
-            if r == "PANIC" || (r.starts_with("ERR:") && r != "ERR:oob") { "FAIL".into() } else { r }
+            // FixedSizeList take has its own in-kernel bounds test returning the same error class
+            // as check_bounds: for it the two failure kinds are not distinguished
+            if r == "PANIC" || (r.starts_with("ERR:") && (r != "ERR:oob" || ty == "fsl")) { "FAIL".into() } else { r }
         }
         "concat" => {
             // C03 concat <ty> <variant> <off:rows;…>
